@@ -2325,7 +2325,15 @@ pub fn round() -> impl Function {
         data_type::Float::default(),
         |a, b| {
             let multiplier = 10.0_f64.powi(b as i32);
-            (a * multiplier).round() / multiplier
+            let rounded = (a * multiplier).round() / multiplier;
+            // 10^b or a * 10^b may overflow (or 10^b underflow to 0): inf / inf and 0 / 0 are NaN
+            if rounded.is_finite() {
+                rounded
+            } else if multiplier == 0. {
+                0.
+            } else {
+                a
+            }
         },
     )
 }
@@ -2338,7 +2346,15 @@ pub fn trunc() -> impl Function {
         data_type::Float::default(),
         |a, b| {
             let multiplier = 10.0_f64.powi(b as i32);
-            (a * multiplier).trunc() / multiplier
+            let truncated = (a * multiplier).trunc() / multiplier;
+            // 10^b or a * 10^b may overflow (or 10^b underflow to 0): inf / inf and 0 / 0 are NaN
+            if truncated.is_finite() {
+                truncated
+            } else if multiplier == 0. {
+                0.
+            } else {
+                a
+            }
         },
     )
 }
